@@ -186,7 +186,14 @@ impl Instructions<Code, Register, Immediate> for Backend {
     }
 
     fn add_and_jump(temporary: Register, immediate: Immediate, instructions: &mut Vec<Code>) {
-        instructions.push(Code::ADDI(TEMP, temporary, immediate));
+        // the immediate of `ADDI` has only 12 bits (signed); a larger offset (a type with more
+        // than 512 xtors) is first loaded into the scratch register
+        if (-2048..=2047).contains(&immediate) {
+            instructions.push(Code::ADDI(TEMP, temporary, immediate));
+        } else {
+            instructions.push(Code::LI(TEMP, immediate));
+            instructions.push(Code::ADD(TEMP, temporary, TEMP));
+        }
         instructions.push(Code::JALR(ZERO, TEMP, 0));
     }
 
